@@ -17,7 +17,7 @@ class C08(Prop):
             "one exported prefix; non-trivial = a prefix whose export differs from the full export; distinct = (scenario, k)")
     reach = ["cut_inside_handshake", "cut_inside_spanning_record", "cut_after_key_change", "cut_between_flights",
              "quic_world", "multi_conn", "four_tuple_reuse", "secrets_block_per_connection",
-             "quic_zero_rtt_before_retry"]
+             "quic_zero_rtt_before_retry", "with_metadata_export", "crypto_retransmitted_with_other_boundaries"]
 
     def plan(self, tier):
         p = super().plan(tier)
@@ -30,7 +30,8 @@ class C08(Prop):
         R = Rng(seed, "C08")
         cfg = {"records_max": 6, "len_max": 3000, "isn_wrap": False, "seg_pct": 80,
                "net": {"delay": 25, "lost_before": 40, "dup": 30, "dup_rto": 40, "dup_late": 40, "_D": 3}, "net_pct": 60,
-               "quic_pct": 35, "quic": {"small": True, "migrate_pct": 20, "retry_pct": 30, "zero_rtt_pct": 40,
+               "quic_pct": 35, "quic": {"small": True, "migrate_pct": 20, "retry_pct": 30, "zero_rtt_pct": 40, "ch_retx_pct": 25,
+                                        "crypto_reorder_pct": 60, "long_ch_pct": 50,
                                         "net": {"delay": 200, "dup": 80, "lost": 30, "_D": 3}}}
         spec = gen.gen_mixed_world(R.fork("world"), cfg, nconn=R.weighted([(1, 50), (2, 35), (3, 15)]))
         spec["prop"] = "C08"
@@ -49,6 +50,8 @@ class C08(Prop):
             spec["conns"].append(b)
             spec["policy"] = "sequential"
             spec["reuse"] = True
+        if R.fork("meta").chance(30):
+            spec["cli"] = {"a": True}       # handshake material is part of the export, too
         if R.fork("keys").chance(25):
             # the secrets travel inside the capture, one block per connection in front of its first packet (merged capture):
             # a cut also cuts the later blocks away, a longer capture only ever adds secrets
@@ -95,6 +98,10 @@ class C08(Prop):
             out.count("reach:four_tuple_reuse")
         if spec.get("keychan", {}).get("dsb_per_conn"):
             out.count("reach:secrets_block_per_connection")
+        if spec.get("cli", {}).get("a"):
+            out.count("reach:with_metadata_export")
+        if any(c["proto"] == "quic" and c["q"].get("ch_retx") for c in spec["conns"]):
+            out.count("reach:crypto_retransmitted_with_other_boundaries")
         for c in spec["conns"]:
             if c["proto"] == "quic" and c["q"].get("retry") and c["q"].get("zero_rtt"):
                 out.count("reach:quic_zero_rtt_before_retry")
@@ -137,7 +144,9 @@ class C08(Prop):
                                         stream_mismatch_class(val[d], fval[d][:len(val[d])]) or "longer-than-full",
                                         "cut after %d of %d packets: conn %d dir %s exports %d bytes, full export %d bytes" % (
                                             k, n, cid, d, len(val[d]), len(fval[d])))
-                        elif cid not in shared_tuple and not t["app"][d].startswith(val[d]):
+                        elif cid not in shared_tuple and not spec.get("cli", {}).get("a") and \
+                                not t["app"][d].startswith(val[d]):
+                            # (with -a the stream also holds handshake material: judged against the full export only)
                             out.violate("prefix-export-is-prefix-of-truth", "wrong-or-invented-data",
                                         "cut after %d of %d packets: conn %d dir %s" % (k, n, cid, d))
                         if prev is not None and cid in prev and not val[d].startswith(prev[cid][1][d]) and \
